@@ -12,6 +12,23 @@ MANIFEST = dict(
     ref='5/C12')
 
 
+def factory_search(ctx, out):
+    """C12.factory_state_rows no longer holds: name the rows (diagnosis from the regenerated file)"""
+    import os, re
+    try:
+        txt = open(os.path.join(R.LEAN, 'RoGen', 'Catalogue.lean')).read().split('def factoryStateRows', 1)[1]
+    except (OSError, IndexError):
+        return False
+    rows = re.findall(r'\("([^"]+)", "([^"]+)", "([^"]*)", (\d+)\)', txt)
+    if not rows:
+        return False
+    ctx.violation('C12: a helper that returns a per-item function keeps mutable state outside the returned function: ' + ', '.join(sorted({f'{f}.{v}' for f, v, _, _ in rows})),
+                  'theorem Ro.C12.factory_state_rows no longer holds (RoGen.Catalogue.factoryStateRows is not empty)\n' +
+                  '\n'.join(f'row {f}: the returned function literal writes `{v}`{how} at line {ln}; `{v}` is declared in the body of {f}, which runs once per operator value, '
+                            'so every subscription of every pipeline built from that operator value shares it' for f, v, how, ln in rows) + '\n', no_input=True)
+    return True
+
+
 def check(ctx):
     rows = run_reuse(ctx)
     R.compare(ctx, rows, proj_all, 'C12 re-subscription / re-application of one operator value',
@@ -21,4 +38,4 @@ def check(ctx):
     R.compare(ctx, rows, lambda d: (flag(d), d.get('same'), d.get('built')), 'C12 operator values capturing other observables, applied to several sources', nontrivial=lambda c, gd: True)
     return dict(rule='every catalogue operator x parameters x variants x callbacks x scripts: operator value applied to 2 cold sources, subscribed in reverse order, '
                      '3 sequential + 4 concurrent subscriptions, probe subscription counters; non-trivial = the pipeline delivered something',
-                search=table_search('C12'))
+                search=combine_search(table_search('C12'), factory_search))
